@@ -92,7 +92,8 @@ def sel_C11(d, kind, f):
 
 
 def sel_C12(d, kind, f):
-    return kind in ('with', 'set')
+    # "... and all getters observe exactly that state": the getters are part of the statement
+    return kind in ('get', 'with', 'set')
 
 
 def sel_C16(d, kind, f):
